@@ -49,7 +49,7 @@ LEVEL_NOTE = ("trusts the hand-written reference lexer/parser/printer in xv/c18_
 TECHNIQUE = ("reference-model differential monitor (round trip real print -> real parse, reference print -> real parse, "
              "real print -> reference parse, real parse vs reference parse on fuzz) with sys.monitoring reach counters "
              "and a CPU-time budget per parse")
-ENGINES = ["harness", "trace"]
+ENGINES = ["harness", "models"]
 ASSUMPTIONS = ["option string values are sequences of Unicode scalar values (no lone surrogates)",
                "integers have fewer than 4300 decimal digits (CPython int<->str limit)",
                "NaN payloads are not distinguished (the text form has a single NaN spelling)",
@@ -63,7 +63,7 @@ SIZES = {
     "thorough": {"rt_shards": 16, "rt_assign": 2000, "as_shards": 8, "as_n": 60000, "pipe_shards": 16, "pipe_n": 8000,
                  "fuzz_shards": 32, "fuzz_n": 40000},
 }
-CPU_BUDGET = (0.5, 0.0005)  # seconds: a + b*len(input); measured normal cost is <= ~6 us per input character (linear)
+CPU_BUDGET = (2.0, 0.002)  # seconds: a + b*len(input); measured normal cost is <= ~6 us per input character (linear), up to ~20x more CPU time was seen on a heavily oversubscribed machine
 
 KNOWN_STR_SPECIAL = set('"\\\n\f\v\r')
 
@@ -921,7 +921,7 @@ class Journal:
         self.prev = n
 
 
-HANG_CPU_S = 90  # CPU seconds the next 50 inputs may use together (normal: < 1 s; worst pathological batch ~20 s)
+HANG_CPU_S = 300  # CPU seconds the next 50 inputs may use together (normal: < 1 s; worst pathological batch ~20 s)
 
 
 def _cpu_watchdog(off=False):
